@@ -71,6 +71,16 @@ func HelperMain() {
 		} else {
 			os.Stderr.Write(b)
 		}
+	case "printhexboth":
+		// printhexboth A B: A to standard output, B to standard error
+		b1, err1 := hex.DecodeString(args[1])
+		b2, err2 := hex.DecodeString(args[2])
+		if err1 != nil || err2 != nil {
+			fmt.Fprintln(os.Stderr, err1, err2)
+			os.Exit(2)
+		}
+		os.Stdout.Write(b1)
+		os.Stderr.Write(b2)
 	case "cat":
 		io.Copy(os.Stdout, os.Stdin)
 	case "argv":
